@@ -370,7 +370,7 @@ def handle (d : DSt) (n : Nat) (line : String) : IO DSt := do
           match parseItem cfg with
           | some it =>
             d := { d with parsedOk := d.parsedOk + 1 }
-            match o.attrs, evalAssigns it.assigns [] with
+            match o.attrs, evalAssigns (canonAssigns it.assigns) [] with
             | some seen, some want =>
               if clean && o.res == some .ok && present && !existed && it.imports.isEmpty then
                 for (kk, sv) in seen do
